@@ -5,6 +5,7 @@ CONSTANTS
   MaxOps = 3
   MaxIno = 8
   Cfg <- MC_Cfg_seal
+  TaintOn = TRUE
   Mode = "c18"
   InitS <- MC_S_plain
   ScenCfg <- MC_Scen_seal
